@@ -4,7 +4,8 @@
 # mode (its own worktree, /repo untouched) and prints one line per property
 # plus the first violation message.
 rd="$1"; jobs="${2:-4}"
-one() { id="$1"; rd="$2"; TRYSEED_SCRATCH=1 /verif/tools/tryseed.sh "$rd/out/$id" "$id" quick > "$rd/out/$id/try.out" 2>&1
+one() { id="$1"; rd="$2"; TRYSEED_SCRATCH=1 "$VTOOLS/tryseed.sh" "$rd/out/$id" "$id" quick > "$rd/out/$id/try.out" 2>&1
   echo "$id: $(grep -E 'SEED-|CHECK' "$rd/out/$id/try.out" | sed 's/builds, suite passes, demo fails with \/ passes without the change//' | tr '\n' ' ' | cut -c1-160) $(grep -A1 -m1 VIOLATION "$rd/out/$id/try.out" | sed -n 2p | cut -c1-160)"; }
+export VTOOLS="$(dirname "$(realpath "$0")")"
 export -f one
 ls "$rd/out" | xargs -P "$jobs" -I{} bash -c "one {} $rd"
